@@ -1,6 +1,7 @@
 package eng
 
 import (
+	"strconv"
 	"fmt"
 	"go/ast"
 	"go/parser"
@@ -68,18 +69,79 @@ func loadPkgs(cfg LoadConfig, overlay map[string][]byte) ([]*packages.Package, *
 		return nil, nil, err
 	}
 	var errs []string
+	var perrs []packages.Error
 	packages.Visit(pkgs, nil, func(p *packages.Package) {
 		for _, e := range p.Errors {
 			errs = append(errs, e.Error())
+			perrs = append(perrs, e)
 		}
 	})
 	if len(errs) > 0 {
 		if len(errs) > 30 {
 			errs = errs[:30]
 		}
-		return nil, nil, fmt.Errorf("load errors:\n  %s", strings.Join(errs, "\n  "))
+		return nil, nil, &loadError{msg: fmt.Sprintf("load errors:\n  %s", strings.Join(errs, "\n  ")), errs: perrs}
 	}
 	return pkgs, fset, nil
+}
+
+type loadError struct {
+	msg  string
+	errs []packages.Error
+}
+
+func (e *loadError) Error() string { return e.msg }
+
+var clauseMarkRe = regexp.MustCompile(`^// gvc:clause (\S+) (\d+)$`)
+
+// blameClauses maps type errors inside generated overlay files to the clauses whose generated
+// functions contain them and marks those clauses broken.  It reports whether every error could
+// be attributed (only then a reload without the broken clauses makes sense).
+func (p *Program) blameClauses(le *loadError) bool {
+	if len(le.errs) == 0 {
+		return false
+	}
+	marked := 0
+	for _, e := range le.errs {
+		parts := strings.Split(e.Pos, ":")
+		if len(parts) < 2 || !strings.HasSuffix(parts[0], overlayName) {
+			return false
+		}
+		src, ok := p.Overlay[parts[0]]
+		if !ok {
+			return false
+		}
+		line, err := strconv.Atoi(parts[1])
+		if err != nil {
+			return false
+		}
+		lines := strings.Split(string(src), "\n")
+		found := false
+		for i := line - 1; i >= 0 && i < len(lines); i-- {
+			if strings.HasPrefix(lines[i], "// ---- ") {
+				break
+			}
+			if m := clauseMarkRe.FindStringSubmatch(lines[i]); m != nil {
+				idx, _ := strconv.Atoi(m[2])
+				for _, cf := range p.Files {
+					for _, c := range cf.Contracts {
+						if c.ID == m[1] && idx < len(c.Clauses) && filepath.Join(filepath.Dir(c.File), overlayName) == parts[0] {
+							if c.Clauses[idx].Broken == "" {
+								c.Clauses[idx].Broken = fmt.Sprintf("%s:%d: clause no longer type-checks against the code: %s", c.Clauses[idx].File, c.Clauses[idx].Line, e.Msg)
+								marked++
+							}
+							found = true
+						}
+					}
+				}
+				break
+			}
+		}
+		if !found {
+			return false
+		}
+	}
+	return marked > 0
 }
 
 // Load performs the two-phase load: phase 1 type-checks the packages to resolve the locals
@@ -153,6 +215,26 @@ func Load(cfg LoadConfig) (*Program, error) {
 		}
 	}
 	pkgs, fset, err := loadPkgs(cfg, p.Overlay)
+	for try := 0; err != nil && try < 3; try++ {
+		// clauses that no longer type-check against the code are dropped (and reported per
+		// function) instead of making every function of the load undecidable
+		le, ok := err.(*loadError)
+		if !ok || !p.blameClauses(le) {
+			break
+		}
+		for _, pk := range sortedPkgs(all1) {
+			cf := p.Files[pk.PkgPath]
+			if cf == nil {
+				continue
+			}
+			src, gerr := generateOverlay(pk, fset1, cf)
+			if gerr != nil {
+				return nil, gerr
+			}
+			p.Overlay[filepath.Join(filepath.Dir(pk.GoFiles[0]), overlayName)] = src
+		}
+		pkgs, fset, err = loadPkgs(cfg, p.Overlay)
+	}
 	if err != nil {
 		return nil, fmt.Errorf("phase 2 (with generated specs): %w", err)
 	}
@@ -388,9 +470,14 @@ func generateOverlay(pk *packages.Package, fset *token.FileSet, cf *ContractFile
 		sigPre := c.sigParams(false)
 		sigPost := c.sigParams(true)
 		counts := map[string]int{}
+	clauses:
 		for _, cl := range c.Clauses {
 			n := counts[cl.Kind]
 			counts[cl.Kind]++
+			if cl.Broken != "" {
+				continue
+			}
+			fmt.Fprintf(&b, "// gvc:clause %s %d\n", c.ID, clauseIndex(c, cl))
 			switch cl.Kind {
 			case "requires", "ensures", "assert":
 				pos := token.NoPos
@@ -439,12 +526,15 @@ func generateOverlay(pk *packages.Package, fset *token.FileSet, cf *ContractFile
 			case "localwrites", "freshwrites":
 				// no generated function
 			case "invariant", "decreases":
+				cl.Locals = nil
 				if fd == nil {
-					return nil, fmt.Errorf("%s:%d: loop clause on extern", cl.File, cl.Line)
+					cl.Broken = fmt.Sprintf("%s:%d: loop clause on extern", cl.File, cl.Line)
+				continue clauses
 				}
 				loops := loopStmts(fd)
 				if cl.Loop < 1 || cl.Loop > len(loops) {
-					return nil, fmt.Errorf("%s:%d: %s has %d loops, clause names loop %d", cl.File, cl.Line, c.Key, len(loops), cl.Loop)
+					cl.Broken = fmt.Sprintf("%s:%d: %s has %d loops, clause names loop %d", cl.File, cl.Line, c.Key, len(loops), cl.Loop)
+				continue clauses
 				}
 				lp := loops[cl.Loop-1]
 				var bodyPos token.Pos
@@ -481,11 +571,13 @@ func generateOverlay(pk *packages.Package, fset *token.FileSet, cf *ContractFile
 				ex, err := Desugar(cl.Expr, oldTyper(pk, fset, bodyPos, qual))
 				oldArgRewrite = nil
 				if err != nil {
-					return nil, fmt.Errorf("%s:%d: %v", cl.File, cl.Line, err)
+					cl.Broken = fmt.Sprintf("%s:%d: %v", cl.File, cl.Line, err)
+				continue clauses
 				}
 				ids, err := FreeIdents(ex)
 				if err != nil {
-					return nil, fmt.Errorf("%s:%d: %v", cl.File, cl.Line, err)
+					cl.Broken = fmt.Sprintf("%s:%d: %v", cl.File, cl.Line, err)
+				continue clauses
 				}
 				var ps []string
 				scope := pk.Types.Scope().Innermost(bodyPos)
@@ -503,11 +595,13 @@ func generateOverlay(pk *packages.Package, fset *token.FileSet, cf *ContractFile
 					if id == "loopx" {
 						rs, ok := lp.(*ast.RangeStmt)
 						if !ok {
-							return nil, fmt.Errorf("%s:%d: loopx on a non-range loop", cl.File, cl.Line)
+							cl.Broken = fmt.Sprintf("%s:%d: loopx on a non-range loop", cl.File, cl.Line)
+						continue clauses
 						}
 						tv, ok := pk.TypesInfo.Types[rs.X]
 						if !ok {
-							return nil, fmt.Errorf("%s:%d: loopx: no type", cl.File, cl.Line)
+							cl.Broken = fmt.Sprintf("%s:%d: loopx: no type", cl.File, cl.Line)
+						continue clauses
 						}
 						ts := types.TypeString(tv.Type, qual)
 						ps = append(ps, "loopx "+ts)
@@ -663,6 +757,15 @@ func oldTyper(pk *packages.Package, fset *token.FileSet, pos token.Pos, qual typ
 		}
 		return types.TypeString(types.Default(tv.Type), qual), nil
 	}
+}
+
+func clauseIndex(c *Contract, cl *Clause) int {
+	for i, x := range c.Clauses {
+		if x == cl {
+			return i
+		}
+	}
+	return -1
 }
 
 // findFuncDecl locates the declaration a non-extern contract talks about.
